@@ -31,11 +31,18 @@ Theorem C14_every_write_fault_is_reported : forall sch n i, ok (puts_f sch i n) 
 Proof. exact puts_fault_reported. Qed.
 Print Assumptions C14_every_write_fault_is_reported.
 
-(** The read side of a check-in is not covered by the code (known finding: getCreateTraveller treats
-    any failed read as "no record yet"): the faithful model refutes the unconditional statement. *)
-Lemma C14_read_fault_in_checkin_refuted : exists sch i, sch i = true /\ ok (submit_f sch i) = true.
-Proof. exact read_fault_in_checkin_not_reported. Qed.
-Print Assumptions C14_read_fault_in_checkin_refuted.
+(** The read side (with the repair: getCreateTraveller tells "no such record" from a failed read): a
+    failed read of the traveller record is reported by a check-in and by Make, and so is a failed
+    write after a successful read. *)
+Theorem C14_checkin_read_or_write_fault_is_reported : forall sch i,
+  sch i = true \/ sch (S i) = true -> ok (submit_f sch i) = false.
+Proof. exact checkin_fault_reported. Qed.
+Print Assumptions C14_checkin_read_or_write_fault_is_reported.
+
+Theorem C14_make_read_or_write_fault_is_reported : forall sch i current,
+  sch i = true \/ sch (S i) = true -> ok (make_f sch i current) = false.
+Proof. exact make_fault_reported. Qed.
+Print Assumptions C14_make_read_or_write_fault_is_reported.
 
 Example C14_nonvacuous :
   (* two workers, three prefixes, five changed records; a fault at the second worker's flush *)
